@@ -8,7 +8,7 @@ Open Scope Z_scope.
 (* how much of the observation is schedule-independent:
    MExact  - one fetcher, one submitter: the request streams are compared in order, back-off pauses included;
    MSorted - several fetchers / submitters, no fault that aborts a pass half-way: streams compared as sorted lists;
-   MLoose  - several fetchers / submitters and a fault half-way: only pass results and gate traffic are compared. *)
+   MLoose  - several fetchers / submitters and a fault half-way: compared up to the pass in which it happens. *)
 Inductive mode := MExact | MSorted | MLoose.
 
 Record obs_req := { oq_start : Z; oq_leaves : list leaf; oq_reply : rpc; oq_delay : Z }.
@@ -82,6 +82,16 @@ Fixpoint passes_eqb (md : mode) (ms : list pass_out) (os : list obs_pass) : bool
   | _, _ => false
   end.
 
+(* MLoose: the observation stops at the first pass that a fault cut short under a concurrent schedule;
+   the passes before it are compared as sorted streams, that pass on its gate traffic only *)
+Fixpoint passes_loose (ms : list pass_out) (os : list obs_pass) : bool :=
+  match ms, os with
+  | _, [] => true
+  | m :: _, [o] => pass_eqb MLoose m o
+  | m :: ms', o :: os' => pass_eqb MSorted m o && passes_loose ms' os'
+  | [], _ :: _ => false
+  end.
+
 Definition final_eqb (f : final) (o : obs_final) : bool :=
   match f, o with FNil, OFNil | FErr, OFErr => true | _, _ => false end.
 
@@ -97,11 +107,11 @@ Definition check (c : case) : bool :=
   match c with
   | CMig md _ _ _ _ _ _ _ fin passes dleaves dsize =>
       let '(outs, w, f) := run c in
-      final_eqb f fin && passes_eqb md outs passes
-      && match md with
-         | MLoose => true
-         | _ => list_eqb leaf_eqb (sorted_leaves (d_leaves (w_dest w))) dleaves && (d_size (w_dest w) =? dsize)
-         end
+      match md with
+      | MLoose => passes_loose outs passes
+      | _ => final_eqb f fin && passes_eqb md outs passes
+             && list_eqb leaf_eqb (sorted_leaves (d_leaves (w_dest w))) dleaves && (d_size (w_dest w) =? dsize)
+      end
   end.
 
 (* what the model computes, in a compact form for replay files *)
